@@ -141,6 +141,7 @@ def extract():
         "ZeroedString": drop_info(cmds, "ZeroedString", r"self\.0\.zeroize\(\)"),
     }
     v["panicSites"] = panic_sites()
+    v["flows"] = flows()
     return v
 
 
@@ -239,6 +240,57 @@ def kind_of(tok):
     return "index"
 
 
+# ---- control-flow skeletons -------------------------------------------------------------------
+
+FLOW_FNS = [
+    ("src/crypto/src/encrypt.rs", "key_encrypt"), ("src/crypto/src/encrypt.rs", "pass_encrypt"), ("src/crypto/src/encrypt.rs", "encrypt_chunks"),
+    ("src/crypto/src/decrypt.rs", "key_decrypt"), ("src/crypto/src/decrypt.rs", "pass_decrypt"), ("src/crypto/src/decrypt.rs", "decrypt_chunks"),
+    ("src/crypto/src/lib.rs", "noise_decrypt"), ("src/crypto/src/lib.rs", "chapoly_decrypt_ietf"), ("src/crypto/src/lib.rs", "chapoly_encrypt_noise"), ("src/crypto/src/lib.rs", "chapoly_decrypt_noise"),
+    ("src/crypto/src/noise.rs", "write_message"), ("src/crypto/src/noise.rs", "read_message"), ("src/crypto/src/noise.rs", "init_x"),
+    ("src/cli/src/commands.rs", "ensure_created"), ("src/cli/src/commands.rs", "gen_key"), ("src/cli/src/commands.rs", "change_pass"),
+    ("src/cli/src/commands.rs", "pass_encrypt"), ("src/cli/src/commands.rs", "pass_decrypt"), ("src/cli/src/commands.rs", "decrypt"), ("src/cli/src/commands.rs", "encrypt"),
+    ("src/cli/src/keyring.rs", "lock_private_key"), ("src/cli/src/keyring.rs", "unlock_private_key"), ("src/cli/src/keyring.rs", "get_name_from_key"),
+]
+
+FLOW_TOKENS = [
+    (r"\.read_exact\(", "read_exact"), (r"\.read\(", "read"), (r"\.write_all\(", "write_all"), (r"\.write\(", "write"), (r"\.flush\(\)", "flush"),
+    (r"chapoly_encrypt_noise\(", "seal"), (r"chapoly_decrypt_noise\(", "open"), (r"chapoly_encrypt_ietf\(", "seal_ietf"), (r"chapoly_decrypt_ietf\(", "open_ietf"), (r"chapoly::open\(", "aead_open"), (r"chapoly::seal\(", "aead_seal"),
+    (r"noise_encrypt\(", "noise_write"), (r"noise_decrypt\(", "noise_read"), (r"hkdf_sha256\(", "hkdf"), (r"kestrel_crypto::scrypt\(|\bscrypt\(", "scrypt"), (r"valid_file_format\(", "magic_check"),
+    (r"return Err\((?:\w+::)?(\w+)", "err"), (r"chunk_number \+= 1", "ctr+=1"), (r"\bloop\s*\{", "loop"), (r"\bbreak;", "break"), (r"secure_random\(", "random"), (r"PrivateKey::generate\(", "random_key"),
+    (r"\.mix_hash\(", "mix_hash"), (r"\.mix_key\(", "mix_key"), (r"\.encrypt_and_hash\(", "encrypt_and_hash"), (r"\.decrypt_and_hash\(", "decrypt_and_hash"), (r"\.diffie_hellman\(", "dh"),
+    (r"File::create\(", "file_create"), (r"\.append\(true\)", "open_append"), (r"\.truncate\(true\)", "open_truncate"), (r"OpenOptions::new\(", "open_options"),
+    (r"lock_private_key\(", "lock"), (r"unlock_private_key\(", "unlock"), (r"encrypt::key_encrypt\(", "lib_key_encrypt"), (r"decrypt::key_decrypt\(", "lib_key_decrypt"),
+    (r"encrypt::pass_encrypt\(", "lib_pass_encrypt"), (r"decrypt::pass_decrypt\(", "lib_pass_decrypt"), (r"open_output\(", "open_output"), (r"open_input\(", "open_input"), (r"open_keyring\(", "open_keyring"),
+    (r"ask_pass\(|confirm_password\(|confirm_new_pass\(", "ask_pass"), (r"println!\(", "println"), (r"\.zeroize\(\)", "zeroize"), (r"==\s*pk\.as_str\(\)|\.as_str\(\)\s*==", "str_eq"),
+    (r"final_nonce_bytes\[4\.\.\]", "nonce[4..]"), (r"to_le_bytes\(\)", "le_bytes"), (r"to_be_bytes\(\)", "be_bytes"), (r"if\s+ciphertext_length\s*>\s*chunk_size", "len>cs"), (r"last_chunk_indicator\s*==\s*1", "last==1"),
+    (r"ciphertext\.len\(\)\s*<\s*TAG_SIZE", "len<tag"), (r"message\.len\(\)\s*<\s*96", "len<96"),
+]
+
+
+def flows():
+    out = []
+    big = re.compile("|".join(f"(?P<t{i}>{pat})" for i, (pat, _) in enumerate(FLOW_TOKENS)))
+    for rel, fn in FLOW_FNS:
+        src = strip_comments(strip_tests(read(rel)))
+        body = None
+        for name, b in split_fns(src):
+            if name == fn:
+                body = b
+                break
+        seq = []
+        if body is not None:
+            for m in big.finditer(body):
+                for i, (pat, label) in enumerate(FLOW_TOKENS):
+                    if m.group(f"t{i}") is not None:
+                        if label == "err":
+                            sub = re.match(pat, m.group(0))
+                            label = "err:" + (sub.group(1) if sub else "?")
+                        seq.append(label)
+                        break
+        out.append((rel.split("/")[-1] + "::" + fn, seq))
+    return out
+
+
 # ---- Lean rendering ---------------------------------------------------------------------------
 
 def lean_bytes(bs):
@@ -292,6 +344,12 @@ def render(v):
         esc = lambda t: t.replace("\\", "\\\\").replace('"', '\\"')
         items.append(f'  ⟨"{esc(s["file"])}", "{esc(s["fn"])}", "{esc(s["kind"])}", "{esc(s["text"])}"⟩')
     A(",\n".join(items) + "]")
+    A("")
+    A("/-- control-flow skeletons: for each function the sequence of significant calls / guards / returns in source order -/")
+    A("def flows : List (String × List String) := [")
+    A(",\n".join("  (" + json.dumps(n) + ", [" + ", ".join(json.dumps(t) for t in seq) + "])" for n, seq in v["flows"]) + "]")
+    for n, seq in v["flows"]:
+        A("def flow_" + re.sub(r"[^A-Za-z0-9]+", "_", n) + " : List String := [" + ", ".join(json.dumps(t) for t in seq) + "]")
     A("")
     A("end Kestrel.Generated")
     return "\n".join(L) + "\n"
